@@ -154,7 +154,11 @@ func checkValue(c valueCase) {
 }
 
 // checkBytes: totality + canonical re-encoding for an arbitrary byte string.
-func checkBytes(kind string, b []byte) {
+func checkBytes(kind string, in []byte) {
+	// exact-capacity copy: a decoder that slices past len(input) panics instead of silently
+	// reading spare capacity, so over-reads are observable
+	b := make([]byte, len(in))
+	copy(b, in)
 	atomic.AddInt64(&evals, 1)
 	defer func() {
 		if p := recover(); p != nil {
